@@ -35,7 +35,19 @@ func ordFramePool() []stack.Call {
 		mk("fmt.Printf", "/goroot/src/fmt/print.go", 10, stack.Stdlib),       // function differs
 		mk("fmt.Println", "/goroot/src/fmt/format.go", 10, stack.Stdlib),     // file differs
 		mk("main.main", "/tmp/go-build/_test/_testmain.go", 5, stack.Stdlib), // package main with stdlib class
+		// the same frame as the first one with other argument values, and under another root: the comparator must
+		// treat them like the first (it looks at function, directory/file name and line only)
+		withArgs(mk("fmt.Println", "/goroot/src/fmt/print.go", 10, stack.Stdlib), 1, 0xc000012340),
+		withArgs(mk("fmt.Println", "/goroot/src/fmt/print.go", 10, stack.Stdlib), 2, 0xc000012348),
+		mk("fmt.Println", "/other/root/src/fmt/print.go", 10, stack.Stdlib),
 	}
+}
+
+func withArgs(c stack.Call, v ...uint64) stack.Call {
+	for _, x := range v {
+		c.Args.Values = append(c.Args.Values, gen.Sc(x))
+	}
+	return c
 }
 
 func ordUniverse(full bool) []ordVariant {
@@ -44,7 +56,7 @@ func ordUniverse(full bool) []ordVariant {
 		mod3 = 9
 	}
 	pool := ordFramePool()
-	names := []string{"std", "mod", "gopath", "modcache", "unk", "main@mod", "main@unk", "std'line", "std'fn", "std'file", "testmain"}
+	names := []string{"std", "mod", "gopath", "modcache", "unk", "main@mod", "main@unk", "std'line", "std'fn", "std'file", "testmain", "std(1,p)", "std(2,q)", "std@otherroot"}
 	var stacks [][]int
 	stacks = append(stacks, nil)
 	np := len(pool)
@@ -251,7 +263,7 @@ func runC13(r *core.Run) {
 	r.Eval(n * n * n) // every triple is one evaluation of the four laws on the cached comparator results
 	r.Exhaustive(true)
 	// black box
-	m := r.N(20000, 600000)
+	m := r.N(20000, 5000000)
 	core.Parallel(m, workers(), func(i int) {
 		rr := core.NewRand(r.Seed, 13, uint64(i))
 		k := 2 + rr.Intn(6)
